@@ -24,12 +24,19 @@ class _Unknown(Exception):
     pass
 
 
-def eval_function(folder: Folder, fi: FuncInfo, args: dict[str, Any], max_steps: int = 500) -> Any:
+def eval_function(folder: Folder, fi: FuncInfo, args: dict[str, Any], max_steps: int = 500, on_unknown: Any = None, env_out: dict | None = None) -> Any:
+    """`on_unknown(expr)` may supply the value of an expression the folder can not evaluate (the clock, say); `env_out`
+    receives the final environment - an object passed as a dict ({'self': {...}}) shows the attributes that were stored."""
     env: dict[str, Any] = dict(args)
+    if env_out is not None:
+        env = env_out
+        env.update(args)
     steps = [0]
 
     def ev(e: ast.AST) -> Any:
         v = folder.fold(e, fi.module, fi.cls, env)
+        if v is UNKNOWN and on_unknown is not None:
+            v = on_unknown(e)
         if v is UNKNOWN:
             raise _Unknown()
         return v
@@ -47,9 +54,16 @@ def eval_function(folder: Folder, fi: FuncInfo, args: dict[str, Any], max_steps:
                 continue
             if isinstance(st, ast.AnnAssign) and st.value is None:
                 continue
+            if isinstance(st, ast.Expr) and isinstance(st.value, ast.Call) and (ast.unparse(st.value.func).startswith('log.')):
+                continue
             if isinstance(st, (ast.Assign, ast.AnnAssign)):
                 tg = st.targets[0] if isinstance(st, ast.Assign) else st.target
-                if not isinstance(tg, ast.Name) or (isinstance(st, ast.Assign) and len(st.targets) != 1):
+                if isinstance(st, ast.Assign) and len(st.targets) != 1:
+                    raise _Unknown()
+                if isinstance(tg, ast.Attribute) and isinstance(tg.value, ast.Name) and isinstance(env.get(tg.value.id), dict):
+                    env[tg.value.id][tg.attr] = ev(st.value)  # type: ignore[arg-type]
+                    continue
+                if not isinstance(tg, ast.Name):
                     raise _Unknown()
                 env[tg.id] = ev(st.value)  # type: ignore[arg-type]
                 continue
